@@ -14,7 +14,7 @@ def classify(block, idx):
 def run(run):
     quick = run.tier == "quick"
     out = run.out
-    k = dict(N=6, M2=12, M3=1200, M4=60) if quick else dict(N=6, M2=2, M3=200, M4=12)
+    k = dict(N=6, M2=12, M3=1200, M4=60, MM=40) if quick else dict(N=6, M2=2, M3=200, M4=12, MM=400)
     p = os.path.join(out, "Gen.cfg")
     with open(p, "w") as f:
         f.write("SPECIFICATION GenSpec\nCHECK_DEADLOCK FALSE\nCONSTANTS\n" + "".join("  %s = %d\n" % kv for kv in k.items()))
